@@ -195,7 +195,7 @@ func checkC05(r *Run) {
 		}
 		// total power recorded iff there are updates
 		if c := r.oneCall("C05-R2", "UTV", f, posK+"SetPrevStateValidatorsPower"); c != nil {
-			ok, _ := HasAtom(P.Guards(c, 0), `^\(0 < len\(`)
+			ok, _ := HasAtom(P.Guards(c, 0), `^!\(0 == len\(`)
 			r.Check(ok, "C05-R2", "UTV/total-power-when-updates", P.InstrPos(c), "guarded by len(updates) > 0", "SetPrevStateValidatorsPower guard changed: "+strings.Join(atomStrings(P.Guards(c, 0)), " ; "))
 		}
 	}
